@@ -87,12 +87,40 @@ func thunkTarget(f *ssa.Function) *types.Func {
 // calleeName is the resolved full name, e.g. "(*sync.Mutex).Lock" or "github.com/tokenized/pkg/wire.ReadVarInt".
 func calleeName(cc *ssa.CallCommon) string {
 	if o := calleeObj(cc); o != nil {
-		return o.FullName()
+		return baselineName(o)
 	}
 	if b, ok := cc.Value.(*ssa.Builtin); ok {
 		return "builtin." + b.Name()
 	}
 	return ""
+}
+
+// baselineName: the full name of o, with a function that was only renamed since the baseline
+// reported under its recorded name (the rules know it by that name).
+func baselineName(o *types.Func) string {
+	full := o.FullName()
+	if len(renamedFuncs) == 0 || o.Pkg() == nil || !inModule(o.Pkg()) {
+		return full
+	}
+	if old, ok := renamedFuncs[typesFuncIdent(o)]; ok && strings.HasSuffix(full, "."+o.Name()) {
+		return strings.TrimSuffix(full, o.Name()) + old
+	}
+	return full
+}
+
+// typesFuncIdent: "pkgpath recv name" of a declared function (as in baseline_funcs.txt).
+func typesFuncIdent(o *types.Func) string {
+	recv := ""
+	if sig, ok := o.Type().(*types.Signature); ok && sig.Recv() != nil {
+		t := sig.Recv().Type()
+		if p, ok := t.(*types.Pointer); ok {
+			t = p.Elem()
+		}
+		if n, ok := t.(*types.Named); ok {
+			recv = n.Obj().Name()
+		}
+	}
+	return o.Pkg().Path() + " " + recv + " " + o.Name()
 }
 
 // shortName strips the module path: "(*state.State).SetInSync", "storage.FetchTxState".
